@@ -191,6 +191,29 @@ EvFn(node, st0, ctx) ==
                     ELSE \A j \in 1..N : ~(A(j).t = "none" \/ (A(j).t = "str" /\ Strip(A(j).s) = <<>>))
               b == IF nm = "missing" THEN ~ok ELSE ok
           IN R(VBool(b), b, st)
+    [] nm = "none"   -> IF N = 0 THEN R(None, TRUE, st) ELSE R(None, IsNone(A(1)), st)
+    \* value producers without a vote of their own (see count_lines below)
+    [] nm = "count_headers"         -> R(VInt(Len(ctx.headers)), FALSE, st)
+    [] nm = "count_headers_in_line" -> R(VInt(Len(ctx.line)), FALSE, st)
+    [] nm = "end"    ->      \* the cell n places before the last cell of THIS line (stripped, like every function value)
+          LET i == Len(ctx.line) - 1 - (IF N = 0 THEN 0 ELSE (IF NumOf(A(1)) < 0 THEN 0 - NumOf(A(1)) ELSE NumOf(A(1))))
+              v == IF i >= 0 /\ i < Len(ctx.line) THEN VStr(Strip(ctx.line[i + 1])) ELSE None
+          IN R(v, v.t # "none", st)
+    [] nm = "firstmatch" ->  \* no line has matched yet and this one does (a look-ahead)
+          IF st.matchCount = 0
+            THEN LET l == LA(1, st, ctx) IN R(VBool(l.ok), l.ok, l.st)
+            ELSE R(VBool(FALSE), FALSE, st)
+    [] nm \in {"header_name", "header_index"} ->   \* index -> name, name -> index; with an expected value: do they agree
+          LET x == A(1)
+              isnum == x.t = "int" \/ (x.t = "str" /\ IsDigits(Strip(x.s)))
+              i == NumOf(x)
+              actual == IF isnum
+                          THEN (IF i >= 0 /\ i < Len(ctx.headers) THEN VStr(ctx.headers[i + 1]) ELSE None)
+                          ELSE LET h == HdrIndex([val |-> x], ctx) IN IF h < 0 THEN None ELSE VInt(h)
+              val == IF N = 1 \/ A(2).t = "none" THEN actual
+                     ELSE VBool(actual.t # "none" /\ PyEq(actual, A(2)))
+              vote == IF val.t = "none" THEN FALSE ELSE IF val.t = "bool" THEN val.i = 1 ELSE TRUE
+          IN R(val, vote, st)
     [] nm = "strip"  -> R(VStr(Strip(StrOf(A(1)))), D, st)
     [] nm = "mod"    -> R(VFloat(NumOf(A(1)) % NumOf(A(2))), D, st)
     [] nm = "int"    -> R(IF A(1).t = "none" THEN None ELSE VInt(NumOf(A(1))), D, st)
@@ -223,11 +246,14 @@ EvFn(node, st0, ctx) ==
     [] nm = "count" ->
           IF N = 0 THEN R(VInt(st.matchCount + 1), D, st)
           ELSE LET v == node.name_q
-                   c == GetTracked(st.vars, v, A(1))
+                   \* the count is kept per value of the argument; a None value has no key: the count is the plain variable
+                   plain == A(1).t = "none"
+                   c == IF plain THEN GetVar(st.vars, v) ELSE GetTracked(st.vars, v, A(1))
                    cur == IF c.t = "none" THEN 0 ELSE c.i
                    bump == ~Has(node, "onmatch") \/ rs[1].vote
                    new == IF bump THEN cur + 1 ELSE cur
-               IN R(VInt(new), D, [st EXCEPT !.vars = SetTracked(st.vars, v, A(1), VInt(new))])
+               IN R(VInt(new), D, [st EXCEPT !.vars = IF plain THEN SetVar(st.vars, v, VInt(new))
+                                                       ELSE SetTracked(st.vars, v, A(1), VInt(new))])
     \* pure value producers: they have no vote of their own (matches() answers None, i.e. negative);
     \* the generators use them in value position only
     [] nm = "count_lines"  -> R(VInt(ctx.dataCount), FALSE, st)
